@@ -40,7 +40,7 @@ COMPONENTS = {
     "stub": ["file system (SimDisk)", "raw file object (SimRawW)", "caller iterable (TrackedFrames)"],
 }
 
-ERRS = ["ENOSPC", "EIO", "EDQUOT"]
+ERRS = ["ENOSPC", "EIO", "EDQUOT", "EPIPE", "EFBIG", "EROFS"]
 PRE = "PRE-EXISTING CONTENT\nline two\n"
 
 # (format, filename for pattern selection | None, [object recipes])
@@ -80,6 +80,7 @@ INCOMPAT = {
     "gen_contraction": ({"op": "gen_contraction"}, ["fchk", "molden", "molekel", "wfn", "wfx"], True),
     "pure_functions": ({"op": "pure_shell"}, ["wfn", "wfx"], False),
     "nonaufbau": ({"op": "nonaufbau"}, ["fchk"], False),
+    "nonaufbau_beta": ({"op": "nonaufbau_beta"}, ["fchk"], False),
     "no_schema_name": ({"op": "drop_extra", "key": "schema_name"}, ["json_qcschema"], False),
     # shells of an angular momentum beyond the format's convention table (not one of the reasons listed in the
     # quantifier, but an incompatibility in the sense of the statement; two-sided oracle as for the others)
@@ -371,6 +372,7 @@ def run_once(w, faults, budget=None):
     rec["missing"] = missing
     rec["incompat"] = info["incompat"]
     rec["tracker"] = tracker_box[0] if tracker_box else None
+    rec["objs"] = objs
     rec["bytes"] = disk.get(path)
     rec["open_events"] = len(disk.events_for(path, ("open_w",)))
     rec["seam_events"] = len(disk.events_for(path, ("open_w", "open_r", "twrite", "rwrite", "rclose", "twrite_fail", "rwrite_fail")))
@@ -486,7 +488,10 @@ def judge(trace, rec, base):
             return out
         if exc is None and not failing_fired:
             # a dump that succeeds must have produced something that loads (two-sided oracle)
-            if not _reloads(w, rec) and _plain_object_reloads(w):
+            ok_reload = _reloads(w, rec)
+            if ok_reload and rec["incompat"] in ("nonaufbau", "nonaufbau_beta") and not _occupations_survive(rec["objs"][0], rec["reloaded"]):
+                out.append(_v("bad_success", f"dump of {rec['incompat']} object succeeded but the file denotes other occupations", trace, "incompat-occ"))
+            if not ok_reload and _plain_object_reloads(w):
                 # (only meaningful when the same object *without* the incompatibility writes a loadable file:
                 # whether every written file can be read back is C01's subject, not C08's)
                 out.append(_v("bad_success", f"dump of {rec['incompat']} object succeeded but the file does not load", trace, "incompat"))
@@ -543,17 +548,33 @@ def judge(trace, rec, base):
     return out
 
 
-def _reloads(w, rec):
+def _reloads(w, rec, objs=None):
     import iodata
 
     disk = rec["disk"]
     fmt_arg = w["fmt"]
     try:
         with seams.Installed(disk):
-            iodata.load_one(w["filename"], fmt=fmt_arg)
+            back = iodata.load_one(w["filename"], fmt=fmt_arg)
     except Exception:  # noqa: BLE001
         return False
+    rec["reloaded"] = back
     return True
+
+
+def _occupations_survive(data, back):
+    """For an incompatibility that has no conversion (e.g. non-aufbau occupations for FCHK) a *successful* dump is
+    only acceptable if the format really stores what was passed in: alpha/beta occupations read back unchanged."""
+    try:
+        a0, b0 = data.mo.occsa, data.mo.occsb
+        a1, b1 = back.mo.occsa, back.mo.occsb
+    except Exception:  # noqa: BLE001
+        return True
+    import numpy as np
+
+    if a0 is None or a1 is None or a0.shape != a1.shape or b0.shape != b1.shape:
+        return True
+    return bool(np.allclose(a0, a1, atol=1e-6) and np.allclose(b0, b1, atol=1e-6))
 
 
 def _plain_object_reloads(w):
@@ -590,9 +611,9 @@ def _fault_positions(base, rng, tier):
         tks = sorted(set(rng.sample(range(nt), min(nt, 6)) + ([0, nt - 1] if nt else [])))
         rks = sorted(set(rng.sample(range(nr), min(nr, 3)) + ([0, nr - 1] if nr else [])))
     for k in tks:
-        faults.append([{"kind": "text_write_fail", "k": k, "errno": ERRS[k % 3]}])
+        faults.append([{"kind": "text_write_fail", "k": k, "errno": ERRS[k % len(ERRS)]}])
     for k in rks:
-        faults.append([{"kind": "raw_write_fail", "k": k, "errno": ERRS[(k + 1) % 3]}])
+        faults.append([{"kind": "raw_write_fail", "k": k, "errno": ERRS[(k + 1) % len(ERRS)]}])
         faults.append([{"kind": "raw_short_write", "k": k, "n": rng.choice([1, 2, 7, 100])}])
     faults.append([{"kind": "close_fail", "errno": rng.choice(ERRS)}])
     # the disk fills up after `capacity` bytes and stays full (every later write and the flush at close fail too)
